@@ -31,11 +31,23 @@ var vfQ struct {
 	setCalls   int
 	setValue   int64
 	setAge     sql.NullInt64
+	keyed      bool  // the harness checks under which key the per-eon tables are addressed
+	key        int64 // ... the key they must be addressed by (the keyper config index)
+}
+
+// the pointer, the queue and the queue length are kept per keyper set: tx_pointer.eon,
+// transaction_submitted_event.eon hold the keyper CONFIG INDEX (what keys messages carry and
+// what advances the pointer), not the eon number, which differs after a restarted key generation
+func vfTableKey(eon int64) {
+	if vfQ.keyed {
+		vfAssert(eon == vfQ.key, "per-keyper-set-tables-are-addressed-by-the-keyper-config-index")
+	}
 }
 
 //verif:stub (*github.com/shutter-network/rolling-shutter/rolling-shutter/keyperimpl/gnosis/database.Queries).GetTransactionSubmittedEvents sql=getTransactionSubmittedEvents
 func vfStubGetEvents(q *database.Queries, ctx context.Context, arg database.GetTransactionSubmittedEventsParams) ([]database.TransactionSubmittedEvent, error) {
 	vfQ.limitSeen, vfQ.indexSeen = arg.Limit, arg.Index
+	vfTableKey(arg.Eon)
 	// contract: rows with index >= arg.Index in index order, at most LIMIT of them
 	vfAssume(int64(len(vfQ.rows)) <= int64(arg.Limit))
 	return vfQ.rows, nil
@@ -43,6 +55,7 @@ func vfStubGetEvents(q *database.Queries, ctx context.Context, arg database.GetT
 
 //verif:stub (*github.com/shutter-network/rolling-shutter/rolling-shutter/keyperimpl/gnosis/database.Queries).GetTxPointer sql=getTxPointer
 func vfStubGetTxPointer(q *database.Queries, ctx context.Context, eon int64) (database.TxPointer, error) {
+	vfTableKey(eon)
 	if vfQ.ptrErr {
 		return database.TxPointer{}, vfErr("db")
 	}
@@ -56,11 +69,13 @@ func vfStubGetTxPointer(q *database.Queries, ctx context.Context, eon int64) (da
 func vfStubSetPtr(q *database.Queries, ctx context.Context, arg database.SetTxPointerParams) error {
 	vfQ.setCalls++
 	vfQ.setValue, vfQ.setAge = arg.Value, arg.Age
+	vfTableKey(arg.Eon)
 	return nil
 }
 
 //verif:stub (*github.com/shutter-network/rolling-shutter/rolling-shutter/keyperimpl/gnosis/database.Queries).GetTransactionSubmittedEventCount sql=getTransactionSubmittedEventCount
 func vfStubCount(q *database.Queries, ctx context.Context, eon int64) (int64, error) {
+	vfTableKey(eon)
 	return vfQ.count, nil
 }
 
@@ -266,7 +281,9 @@ func H_C19_trigger_decryption() {
 	ch := make(chan *broker.Event[*epochkghandler.DecryptionTrigger], 1)
 	kpr := &Keyper{config: &Config{Gnosis: &GnosisConfig{EncryptedGasLimit: limit, MinGasPerTransaction: minGas, MaxTxPointerAge: maxAge}}, decryptionTriggerChannel: ch}
 	set := &obskeyper.KeyperSet{KeyperConfigIndex: cfgIndex} // the keyper set active at the next block is the eon's
+	vfQ.keyed, vfQ.key = true, cfgIndex
 	err := kpr.triggerDecryption(context.Background(), slot, vfTrigBlock, set)
+	vfQ.keyed = false
 	if err != nil {
 		vfAssert(vfChanLen(ch) == 0, "no-trigger-on-error")
 		vfReach("error")
